@@ -411,10 +411,10 @@ func ruleSem1(c *Ctx, r *Reporter) {
 
 func ruleSem2(c *Ctx, r *Reporter) {
 	type ordCase struct {
-		name             string
-		ord              int
-		nan0, nan1       bool
-		want             int64
+		name       string
+		ord        int
+		nan0, nan1 bool
+		want       int64
 	}
 	plain := []ordCase{{"l<r", -1, false, false, -1}, {"l=r", 0, false, false, 0}, {"l>r", 1, false, false, 1}}
 	floats := append(append([]ordCase{}, plain...), ordCase{"l=NaN", 0, true, false, -1}, ordCase{"r=NaN", 0, false, true, 1}, ordCase{"both NaN", 0, true, true, 0})
